@@ -170,12 +170,36 @@ type SVGImage struct {
 
 func (SVGImage) isImage() {}
 
+// guardImageCycle returns a fetcher refusing to serve [url] (the fragment is ignored):
+// it is used for the resources of the SVG image at [url], so that an image including
+// itself (directly, or through other SVG images) fails to load instead of
+// recursing for ever.
+func guardImageCycle(urlFetcher utils.UrlFetcher, url string) utils.UrlFetcher {
+	withoutFragment := func(u string) string {
+		if i := strings.IndexByte(u, '#'); i != -1 {
+			u = u[:i]
+		}
+		return u
+	}
+	url = withoutFragment(url)
+	if url == "" {
+		return urlFetcher
+	}
+	return func(target string) (utils.RemoteRessource, error) {
+		if withoutFragment(target) == url {
+			return utils.RemoteRessource{}, fmt.Errorf("cyclic inclusion of the image %s", url)
+		}
+		return urlFetcher(target)
+	}
+}
+
 func NewSVGImage(svgData io.Reader, baseURL string, urlFetcher utils.UrlFetcher) (SVGImage, error) {
 	// don’t pass data URIs: they are useless for relative URIs anyway.
 	if strings.HasPrefix(strings.ToLower(baseURL), "data:") {
 		baseURL = ""
 	}
 
+	urlFetcher = guardImageCycle(urlFetcher, baseURL)
 	imageLoader := func(url string) (backend.Image, error) {
 		return getImageFromUri(urlFetcher, false, url, "", pr.SBoolFloat{})
 	}
@@ -194,6 +218,7 @@ func NewSVGImageFromNode(node *html.Node, baseURL string, urlFetcher utils.UrlFe
 		baseURL = ""
 	}
 
+	urlFetcher = guardImageCycle(urlFetcher, baseURL)
 	imageLoader := func(url string) (backend.Image, error) {
 		return getImageFromUri(urlFetcher, false, url, "", pr.SBoolFloat{})
 	}
